@@ -18,6 +18,7 @@ Definition oracle := option block.            (* result of THIS execution of the
 Inductive instr :=
   | IAlloc                (* r := alloc()                                   *)
   | ITestNull             (* if (r == NULL) goto error-edge                 *)
+  | ITestCarryOn          (* if (r != NULL) { fill } - and on NULL the function simply goes on *)
   | IUse (k : use_kind)   (* *r, r->f, r[i], Memcpy(r, ..), f(r) ...        *)
   | IHandOver             (* return r : the caller goes on (it is a site of the table itself)            *)
   | IStoreField.          (* x->field = r and nothing else: readers of the field take NULL for "not set" *)
@@ -26,6 +27,8 @@ Inductive outcome :=
   | Fault (k : use_kind)  (* NULL dereferenced *)
   | SilentNull            (* NULL was stored where it MEANS something ("no expected name", "no ticket"):
                              no crash, no error - the feature is silently off *)
+  | Swallowed             (* the NULL test fired but the failing branch neither leaves nor records an error: the function
+                             carries on with a partially built object and its caller is told nothing *)
   | ErrorEdge             (* the NULL test fired: PS_MEM_FAIL / SSL_MEM_ERROR path *)
   | Completed             (* block in use, execution continues normally *)
   | Stuck.                (* ill-formed program (register read before IAlloc) - never produced by site_prog *)
@@ -42,6 +45,12 @@ Definition step (orc : oracle) (c : cfg) : step_result :=
       match reg c with
       | None => Halt Stuck
       | Some None => Halt ErrorEdge
+      | Some (Some _) => Next (mkCfg rest (reg c))
+      end
+  | ITestCarryOn :: rest =>
+      match reg c with
+      | None => Halt Stuck
+      | Some None => Halt Swallowed
       | Some (Some _) => Next (mkCfg rest (reg c))
       end
   | IUse k :: rest =>
@@ -69,6 +78,7 @@ Fixpoint run (fuel : nat) (orc : oracle) (c : cfg) : outcome :=
 Definition site_prog (s : site) : list instr :=
   match s_class s with
   | GuardedBeforeUse _ => [IAlloc; ITestNull; IUse UField]
+  | GuardedButSwallowed => [IAlloc; ITestCarryOn; IUse UField]
   | UsedUnguarded k    => [IAlloc; IUse k; ITestNull]
   | Returned =>
       (* the raw result leaves the function as its return value: the function is an allocator itself, the
@@ -94,8 +104,33 @@ Definition guarded (s : site) : bool :=
   match s_class s with
   | GuardedBeforeUse _ | Discarded => true
   | Returned => s_consumers_tested s
-  | StoredUnchecked | UsedUnguarded _ | Unknown => false
+  | GuardedButSwallowed | StoredUnchecked | UsedUnguarded _ | Unknown => false
   end.
+
+(* GuardedButSwallowed sites reviewed by hand and by fault injection and accepted as benign - each with its reason.
+   Everything else of that class counts as a violation: a failure that is swallowed leaves an object whose missing
+   part other code reads as "not there" (e.g. a resumption PSK without the server name it was authenticated for). *)
+Definition benign_swallowed_keys : list string :=
+  [ "sslDecode.c:parseSSLHandshake#4"     (* TLS<=1.2 NewSessionTicket, first ticket: "Don't fail on alloc error. Just won't have
+                                              the ticket for next time" - sessionTicketLen is reset to 0 = no ticket, the next
+                                              connection does a full handshake (scenario tls12-ticket-renew, every k) *)
+  ; "sslDecode.c:parseSSLHandshake#5"     (* same, renewed ticket: old ticket freed, pointer NULL, length 0 (tls12-ticket-renew+del) *)
+  ; "x509.c:psSprintAsnOid@asnFormatOid#1" (* diagnostic formatter: prints "(OID cannot be displayed)" instead of the dotted OID *)
+  ].
+
+Definition benign_swallowed (s : site) : bool :=
+  match s_class s with
+  | GuardedButSwallowed => existsb (String.eqb (s_key s)) benign_swallowed_keys
+  | _ => false
+  end.
+
+(* what the table theorem accepts: guarded, or swallowed-and-reviewed *)
+Definition accepted (s : site) : bool := guarded s || benign_swallowed s.
+
+(* no stale entries: every benign key names a site of the current table that really has that class *)
+Definition benign_keys_are_swallowed_sites : bool :=
+  forallb (fun k => existsb (fun s => String.eqb (s_key s) k && match s_class s with GuardedButSwallowed => true | _ => false end) sites)
+          benign_swallowed_keys.
 
 (* Confirmed-but-unrepaired sites (open known findings), by key. *)
 Definition known_open_keys : list string :=
